@@ -135,3 +135,36 @@ def seed_project(rng, seeds: dict, codemods: list[str], n_files: int, manifest: 
     if manifest:
         files[manifest] = rng.choice(MANIFESTS[manifest])
     return files, origin
+
+
+def layout_variants(code: str) -> dict[str, bytes]:
+    """layout / encoding variants of a snippet (all still valid Python with the same token stream)"""
+    out = {"plain": code.encode()}
+    out["crlf"] = code.replace("\n", "\r\n").encode()
+    out["no-final-newline"] = code.rstrip("\n").encode()
+    out["trailing-blank"] = (code + "\n\n").encode()
+    out["nonascii-comment"] = ("# héllo ✓ κόσμος\n" + code).encode()
+    out["formfeed"] = (code.split("\n", 1)[0] + "\n\x0c" + (code.split("\n", 1)[1] if "\n" in code else "")).encode()
+    out["bom"] = b"\xef\xbb\xbf" + code.encode()
+    out["cr-only-in-string"] = (code + 's = "a\\rb"\n').encode()
+    return out
+
+
+def gnu_patch(before: bytes, diff: str) -> bytes | None:
+    """apply a unified diff with patch(1) (independent oracle); None when patch rejects it"""
+    import subprocess, tempfile
+    d = Path(tempfile.mkdtemp(prefix="patch-", dir=os.environ.get("TMPDIR")))
+    try:
+        # the report's diff text cannot express whether the last line had a newline (difflines_to_str completes every
+        # line): the property is "up to the presence of a final newline", so the oracle works on newline-terminated text
+        if before and not before.endswith(b"\n"):
+            before = before + b"\n"
+        (d / "f").write_bytes(before)
+        (d / "d.diff").write_text(diff if diff.endswith("\n") else diff + "\n", encoding="utf-8", newline="")
+        p = subprocess.run(["patch", "--binary", "-s", "-f", "--no-backup-if-mismatch", "-F0", str(d / "f"), str(d / "d.diff")],
+                           stdout=subprocess.PIPE, stderr=subprocess.STDOUT)
+        if p.returncode != 0:
+            return None
+        return (d / "f").read_bytes()
+    finally:
+        shutil.rmtree(d, ignore_errors=True)
